@@ -316,7 +316,7 @@ impl Drop for Active {
 pub fn run(ctx: &Ctx) -> Report {
     let mut rng = ctx.rng("c09");
     let mut cases: Vec<Case> = Vec::new();
-    let shapes: Vec<Vec<(u32, u32)>> = vec![vec![(2, 8)], vec![(2, 1)], vec![(5, 4)], vec![(2, 4), (2, 8)], vec![(2, 8), (5, 2)], vec![(2, 2), (2, 4), (2, 8)], vec![(2, 8); 8]];
+    let shapes: Vec<Vec<(u32, u32)>> = vec![vec![(2, 8)], vec![(2, 1)], vec![(5, 4)], vec![(2, 4), (2, 8)], vec![(2, 8), (5, 2)], vec![(2, 2), (2, 4), (2, 8)], vec![(2, 8); 8], vec![(10, 2)], vec![(2, 8), (10, 1)]];
     for alg in model::ALL_ALGS {
         for spec in &shapes {
             let lv = levels(spec);
@@ -440,6 +440,26 @@ pub fn run(ctx: &Ctx) -> Report {
             let _ = libcall::keygen(c.alg, &c.levels, &c.seed, Some(&mut aux));
             let r5 = evaluate(c, SignEntry::TrySignAux, Some(&mut aux));
             compare(&mut w.report, "with-aux", c, b, &r5);
+            // a key object that signs, gets older key bytes written back through as_mut_slice(), and
+            // signs again: it must continue exactly like those bytes (nothing but the bytes is state)
+            {
+                use crate::libcall::{KeyObs, KeyOp};
+                let start = hss::make_blob(c.counter, &c.levels, &c.seed);
+                let ops = vec![KeyOp::TrySign(b"first".to_vec()), KeyOp::TrySign(b"second".to_vec()), KeyOp::Overwrite(start.clone()), KeyOp::TrySign(c.msg.clone()), KeyOp::Bytes];
+                if let Some((_, obs)) = libcall::key_object_session(c.alg, &c.levels, &c.seed, false, &start, &ops) {
+                    let sig = match &obs[3] {
+                        KeyObs::Signed(Out::Ok(s)) => hex(&model::alg::sha256(&[s])),
+                        KeyObs::Signed(o) => o.describe(),
+                        _ => "-".into(),
+                    };
+                    let next = match &obs[4] {
+                        KeyObs::Bytes(b) => hex(b),
+                        _ => "-".into(),
+                    };
+                    let got = Res { sk: b.sk.clone(), vk: b.vk.clone(), sig, next };
+                    compare(&mut w.report, "key-object-with-bytes-written-back", c, b, &got);
+                }
+            }
             // an aux buffer that an unrelated key (same hash, same shape) left behind: first one
             // that its sign call set up, then one that its keygen filled
             let other_seed = rng.bytes(c.alg.n());
@@ -516,7 +536,7 @@ pub fn run(ctx: &Ctx) -> Report {
         w.report.distinct(&format!("walk|{}|{}", alg.name(), fmt_levels(&lv)));
     });
     rep.merge(r3);
-    rep.rule = "cases = (hash, parameter list, seed, counter, message); baseline = results of a fresh process with a scrubbed environment; cases include groups of keys that share one seed but differ in parameters; re-evaluations: second fresh process with 200 noise variables, hostile HBS_LMS_*/locale/TZ settings and another cwd; third fresh process evaluating in reverse order; a process under valgrind memcheck (software SHA-2 back end; any report with a library frame is a violation); same thread twice; after unrelated operations (other keys and hashes, failing calls, refused callbacks, a callback that panics and is caught, aux in use); concurrently on all worker threads (overlap of call kinds recorded from an atomic active-call table); SigningKey::try_sign and try_sign_with_aux(valid aux) vs byte-level sign; with an aux buffer that an unrelated key's sign or keygen call left behind; complete lifetimes of a SigningKey object kept in memory vs a key reloaded from its bytes before every signature; \
+    rep.rule = "cases = (hash, parameter list, seed, counter, message); baseline = results of a fresh process with a scrubbed environment; cases include groups of keys that share one seed but differ in parameters; re-evaluations: second fresh process with 200 noise variables, hostile HBS_LMS_*/locale/TZ settings and another cwd; third fresh process evaluating in reverse order; a process under valgrind memcheck (software SHA-2 back end; any report with a library frame is a violation); same thread twice; after unrelated operations (other keys and hashes, failing calls, refused callbacks, a callback that panics and is caught, aux in use); concurrently on all worker threads (overlap of call kinds recorded from an atomic active-call table); SigningKey::try_sign and try_sign_with_aux(valid aux) vs byte-level sign; a key object that signed twice and then got its earlier bytes written back through as_mut_slice(); with an aux buffer that an unrelated key's sign or keygen call left behind; complete lifetimes of a SigningKey object kept in memory vs a key reloaded from its bytes before every signature; \
                 distinct_nontrivial = distinct (context family, hash, parameter list, counter)"
         .into();
     if rep.counter("walk_steps_compared") == 0 {
